@@ -156,14 +156,11 @@ theorem flushObj_inv {sch : Schema} {w : World} (h : WInv sch w) (o : ObjId) (id
   split
   · -- created
     have hgo : ∀ (pk : KeyVal) (newId : Option Int) (ids' : List Int),
-        let r : FRes := match dbInsert sch w.txn (objRow (w.sess.obj o) pk) with
-          | none => ⟨{ w with inTxn := true, immediate := true }, some .txnIntegrity, ids', false⟩
-          | some t' =>
-              match (saveCreated w.sess o newId).2.err with
-              | some _ => ⟨{ w with txn := t', inTxn := true, immediate := true }, some .autoIdUsed, ids', false⟩
-              | none => ⟨{ w with txn := t', inTxn := true, immediate := true, sess := (saveCreated w.sess o newId).1 }, none, ids', true⟩
-        WInv sch r.w ∧ r.w.committed = w.committed ∧ (r.w.txn ≠ w.txn → r.w.inTxn = true) ∧ (w.inTxn = true → r.w.inTxn = true) := by
+        WInv sch (flushInsert sch w o pk newId ids').w ∧ (flushInsert sch w o pk newId ids').w.committed = w.committed ∧
+          ((flushInsert sch w o pk newId ids').w.txn ≠ w.txn → (flushInsert sch w o pk newId ids').w.inTxn = true) ∧
+          (w.inTxn = true → (flushInsert sch w o pk newId ids').w.inTxn = true) := by
       intro pk newId ids'
+      unfold flushInsert
       cases hi : dbInsert sch w.txn (objRow (w.sess.obj o) pk) with
       | none => exact ⟨keep, rfl, fun _ => rfl, fun _ => rfl⟩
       | some t' =>
@@ -223,7 +220,7 @@ theorem flush_inv {sch : Schema} {w : World} (h : WInv sch w) (ids : List Int) :
         exact ⟨⟨a.committed, a.txn, a.coherent⟩, b⟩
       · rename_i w' saved hg
         rw [hg] at a b
-        exact ⟨a, b⟩
+        exact ⟨⟨a.committed, a.txn, a.coherent⟩, b⟩
 
 theorem rollback_inv {sch : Schema} {w : World} (h : WInv sch w) : WInv sch (rollback w) :=
   ⟨h.committed, h.committed, fun _ => rfl⟩
@@ -250,15 +247,15 @@ theorem fetch_inv {sch : Schema} {w : World} (h : WInv sch w) (c : Nat) (pk : Ke
       ⟨h.committed, h.txn, fun e => h.coherent (by
         simp only [Bool.or_eq_false_iff] at e; exact e.1)⟩
     simp only
-    have hf : WInv sch (if ({ w with sess := s1, inTxn := w.inTxn || w.immediate } : World).sess.queue.isEmpty
-          then (({ w with sess := s1, inTxn := w.inTxn || w.immediate } : World), (none : Option WErr))
-          else flush sch { w with sess := s1, inTxn := w.inTxn || w.immediate } ids).1 ∧
-        (if ({ w with sess := s1, inTxn := w.inTxn || w.immediate } : World).sess.queue.isEmpty
-          then (({ w with sess := s1, inTxn := w.inTxn || w.immediate } : World), (none : Option WErr))
-          else flush sch { w with sess := s1, inTxn := w.inTxn || w.immediate } ids).1.committed = w.committed := by
+    have hf : WInv sch (if ({ w with sess := s1, inTxn := w.inTxn || w.immediate } : World).modified
+          then flush sch { w with sess := s1, inTxn := w.inTxn || w.immediate } ids
+          else (({ w with sess := s1, inTxn := w.inTxn || w.immediate } : World), (none : Option WErr))).1 ∧
+        (if ({ w with sess := s1, inTxn := w.inTxn || w.immediate } : World).modified
+          then flush sch { w with sess := s1, inTxn := w.inTxn || w.immediate } ids
+          else (({ w with sess := s1, inTxn := w.inTxn || w.immediate } : World), (none : Option WErr))).1.committed = w.committed := by
       split
-      · exact ⟨h1, rfl⟩
       · exact flush_inv h1 ids
+      · exact ⟨h1, rfl⟩
     split
     · rename_i w2 e hq
       rw [hq] at hf
@@ -318,5 +315,177 @@ theorem commit_err {sch : Schema} {w : World} (h : WInv sch w) (ids : List Int) 
     exact ⟨b, b, rfl⟩
   · rename_i w' hf
     simp [hf] at he
+
+/-! ## 4. rows by primary key -/
+
+theorem getRow_cons (x : DbRow) (t : Table) (pk : KeyVal) : getRow (x :: t) pk = if x.pk = pk then some x else getRow t pk := by
+  unfold getRow
+  rw [List.find?_cons]
+  by_cases e : x.pk = pk <;> simp [e]
+
+theorem getRow_append_one (t : Table) (r : DbRow) (pk : KeyVal) :
+    getRow (t ++ [r]) pk = match getRow t pk with
+      | some y => some y
+      | none => if r.pk = pk then some r else none := by
+  induction t with
+  | nil => simp [getRow_cons, getRow]
+  | cons x t ih =>
+    rw [List.cons_append, getRow_cons, getRow_cons]
+    by_cases e : x.pk = pk
+    · simp [e]
+    · simp only [e, if_false]; exact ih
+
+theorem getRow_none_of_no_pk (t : Table) (pk : KeyVal) (h : ∀ x, x ∈ t → x.pk ≠ pk) : getRow t pk = none := by
+  induction t with
+  | nil => rfl
+  | cons x t ih =>
+    rw [getRow_cons]
+    have := h x List.mem_cons_self
+    simp only [this, if_false]
+    exact ih (fun y hy => h y (List.mem_cons_of_mem _ hy))
+
+/-- INSERT: the new row is found under its primary key, every other primary key finds what it found before -/
+theorem getRow_insert {sch : Schema} {t t' : Table} {r : DbRow} (h : dbInsert sch t r = some t') (pk : KeyVal) :
+    getRow t' pk = if pk = r.pk then some r else getRow t pk := by
+  unfold dbInsert at h
+  split at h
+  · cases h
+  · rename_i hany
+    simp only [Option.some.injEq] at h
+    subst h
+    simp only [Bool.not_eq_true, List.any_eq_false] at hany
+    rw [getRow_append_one]
+    by_cases e : pk = r.pk
+    · subst e
+      have : getRow t r.pk = none := by
+        apply getRow_none_of_no_pk
+        intro x hx e2
+        have := hany x hx
+        unfold clash at this
+        simp [e2] at this
+      simp [this]
+    · have hr : ¬ r.pk = pk := fun e2 => e e2.symm
+      simp only [e, if_false, hr]
+      cases getRow t pk <;> rfl
+
+/-- DELETE: only the row with that primary key disappears -/
+theorem getRow_delete (t : Table) (k pk : KeyVal) : getRow (dbDelete t k) pk = if pk = k then none else getRow t pk := by
+  induction t with
+  | nil => simp [dbDelete, getRow]
+  | cons x t ih =>
+    unfold dbDelete at ih ⊢
+    by_cases hx : x.pk = k
+    · simp only [List.filter_cons, hx, ne_eq, not_true_eq_false, decide_false, Bool.false_eq_true, if_false, ih, getRow_cons]
+      by_cases e : pk = k
+      · simp [e]
+      · have : ¬ k = pk := fun e2 => e e2.symm
+        simp [e, this]
+    · simp only [List.filter_cons, ne_eq, hx, not_false_eq_true, decide_true, if_true, getRow_cons, ih]
+      by_cases e2 : x.pk = pk
+      · have : ¬ pk = k := fun e3 => hx (e2.trans e3)
+        simp [e2, this]
+      · simp [e2]
+
+theorem getRow_map (t : Table) (r : DbRow) (pk : KeyVal) :
+    getRow (t.map fun x => if x.pk = r.pk then r else x) pk =
+      if pk = r.pk then (getRow t pk).map (fun _ => r) else getRow t pk := by
+  induction t with
+  | nil => simp [getRow]
+  | cons x t ih =>
+    rw [List.map_cons, getRow_cons, getRow_cons, ih]
+    by_cases hx : x.pk = r.pk
+    · by_cases e : pk = r.pk
+      · have : x.pk = pk := hx.trans e.symm
+        simp [hx, e]
+      · have h1 : ¬ r.pk = pk := fun e2 => e e2.symm
+        have h2 : ¬ x.pk = pk := fun e2 => e (e2.symm.trans hx)
+        simp [hx, e, h1, h2]
+    · by_cases e2 : x.pk = pk
+      · have : ¬ pk = r.pk := fun e3 => hx (e2.trans e3)
+        simp [hx, e2, this]
+      · simp [hx, e2]
+
+/-- UPDATE: only the row with that primary key changes -/
+theorem getRow_update {sch : Schema} {t t' : Table} {r : DbRow} (h : dbUpdate sch t r = some t') (pk : KeyVal) :
+    getRow t' pk = if pk = r.pk then (getRow t pk).map (fun _ => r) else getRow t pk := by
+  unfold dbUpdate at h
+  split at h
+  · cases h
+  · simp only [Option.some.injEq] at h
+    subst h
+    exact getRow_map t r pk
+
+theorem getRow_pk {t : Table} {k : KeyVal} {r : DbRow} (h : getRow t k = some r) : r.pk = k := by
+  unfold getRow at h
+  have := List.find?_some h
+  simpa using this
+
+/-! ## 5. what one `_save_()` does to the rows -/
+
+/-- a saved NEW object: exactly its row appears (under the explicit or the generated primary key), with the session's values;
+    every other primary key finds what it found before -/
+theorem flushObj_created_rows {sch : Schema} {w : World} {o : ObjId} {ids : List Int}
+    (hst : (w.sess.obj o).status = .created) (he : (flushObj sch w o ids).err = none) :
+    ∃ k, ((w.sess.obj o).pk = some k ∨ ((w.sess.obj o).pk = none ∧ ∃ id r, ids = id :: r ∧ k = [id])) ∧
+      ∀ pk', getRow (flushObj sch w o ids).w.txn pk' = if pk' = k then some (objRow (w.sess.obj o) k) else getRow w.txn pk' := by
+  have hgo : ∀ (pk : KeyVal) (newId : Option Int) (ids' : List Int), (flushInsert sch w o pk newId ids').err = none →
+      ∀ pk', getRow (flushInsert sch w o pk newId ids').w.txn pk' = if pk' = pk then some (objRow (w.sess.obj o) pk) else getRow w.txn pk' := by
+    intro pk newId ids'
+    unfold flushInsert
+    cases hi : dbInsert sch w.txn (objRow (w.sess.obj o) pk) with
+    | none => intro h; cases h
+    | some t' =>
+      simp only
+      split
+      · intro h; cases h
+      · intro _ pk'
+        exact getRow_insert hi pk'
+  unfold flushObj at he ⊢
+  simp only [hst] at he ⊢
+  cases hpk : (w.sess.obj o).pk with
+  | some k =>
+    simp only [hpk] at he ⊢
+    exact ⟨k, by simp, hgo k none ids he⟩
+  | none =>
+    simp only [hpk] at he ⊢
+    cases ids with
+    | nil =>
+      simp only at he
+      split at he <;> cases he
+    | cons id r =>
+      simp only at he ⊢
+      exact ⟨[id], by simp, hgo [id] (some id) r he⟩
+
+/-- a saved MODIFIED object: exactly its row changes, and it gets the session's values in the written columns -/
+theorem flushObj_modified_rows {sch : Schema} {w : World} {o : ObjId} {ids : List Int} {k : KeyVal}
+    (hst : (w.sess.obj o).status = .modified) (hpk : (w.sess.obj o).pk = some k)
+    (hw : (List.range sch.nattrs).any (w.sess.obj o).wbits = true) (he : (flushObj sch w o ids).err = none) :
+    ∃ old, getRow w.txn k = some old ∧
+      ∀ pk', getRow (flushObj sch w o ids).w.txn pk' = if pk' = k then some (updRow (w.sess.obj o) old) else getRow w.txn pk' := by
+  unfold flushObj at he ⊢
+  simp only [hst, hpk, hw, if_true] at he ⊢
+  cases hold : getRow w.txn k with
+  | none => simp [hold] at he
+  | some old =>
+    simp only [hold] at he ⊢
+    cases hu : dbUpdate sch w.txn (updRow (w.sess.obj o) old) with
+    | none => simp [hu] at he
+    | some t' =>
+      simp only
+      refine ⟨old, rfl, ?_⟩
+      intro pk'
+      have hk : (updRow (w.sess.obj o) old).pk = k := show old.pk = k from getRow_pk hold
+      rw [getRow_update hu pk', hk]
+      by_cases e : pk' = k
+      · subst e; simp [hold]
+      · simp [e]
+
+/-- a saved DELETED object: exactly its row disappears -/
+theorem flushObj_deleted_rows {sch : Schema} {w : World} {o : ObjId} {ids : List Int} {k : KeyVal}
+    (hst : (w.sess.obj o).status = .markedToDelete) (hpk : (w.sess.obj o).pk = some k) (pk' : KeyVal) :
+    getRow (flushObj sch w o ids).w.txn pk' = if pk' = k then none else getRow w.txn pk' := by
+  unfold flushObj
+  simp only [hst, hpk]
+  exact getRow_delete w.txn k pk'
 
 end PonyVerif.Model.KeyDb
